@@ -92,6 +92,19 @@ def run_map(job):
                      rng.randrange(len(curves)), None))
     for kind, k, feat in plan:
         idnt = grp[k]
+        if kind in ("fit", "refit", "fitfails"):
+            # the fit ops below preprocess with P1 first; when that changes
+            # the pipeline it is an event of its own (results AND rating of
+            # the curve are dropped)
+            fp0 = idnt.fit_properties
+            if list(fp0.get("preprocessing", [])) != list(P1) \
+                    or "preprocessing" not in fp0:
+                with warnings.catch_warnings():
+                    warnings.simplefilter("ignore")
+                    idnt.apply_preprocessing(list(P1))
+                tr["events"].append({"op": "repre", "c": curves[k], "f": "",
+                                     "e": "", "cp": "", "r": "",
+                                     "warned": False, "grid": [[""]]})
         ev = {"op": kind, "c": curves[k], "f": "", "e": "", "cp": "",
               "r": "", "warned": False, "grid": [[""]]}
         with warnings.catch_warnings(record=True) as wlist:
